@@ -7,7 +7,7 @@ results = json.load(open(root + '/seeded/RESULTS.json'))
 for d in sorted(glob.glob(root + '/seeded/C*')):
     name = os.path.basename(d)
     am = json.load(open(d + '/agent-meta.json'))
-    val = open(d + '/validation.log').read()
+    val = open(d + "/validation.log").read() if os.path.exists(d + "/validation.log") else ""
     ok_without = 'demo without the change\nok' in val
     fail_with = '--- FAIL' in val or 'panic' in val
     suite_clean = val.split('full test suite with the change')[1].count('\n') <= 2 if 'full test suite with the change' in val else False
